@@ -171,6 +171,73 @@ def _canonical_view(prog, f):
     return g
 
 
+def cell_models(prog, f, body, comb, refname, name):
+    """The per-cell code of a frequency / position / rank operator decided on finite models.
+
+    These operators touch the layer values of a cell only through comparisons (`<`, `==`, `min`, `max`, `index`, `sort`)
+    and NaN tests, on Python numbers (the cell tuples hold `.item()` values).  Their result is therefore a function of the
+    ordering and NaN-ness of the values alone: the loop body is folded (consteval - a pure-Python subset, no library code
+    is run) for every cell of 1..3 layers over the levels 0 < 1 < 2 and NaN - every weak ordering of up to three layers,
+    with and without NaN - and must append exactly the operator's definition each time.  Returns (True, '') /
+    (False, counterexample, nan_case) / (None, why not evaluable)."""
+    from itertools import product
+    from ..consteval import CannotFold, Folder, _Continue
+    outs = {c.func.value.id for s_ in body for c in ast.walk(s_) if isinstance(c, ast.Call) and short(c) == 'append' and
+            isinstance(c.func, ast.Attribute) and isinstance(c.func.value, ast.Name)}
+    if len(outs) != 1:
+        return None, 'the list of per-cell results is not unique (%s)' % sorted(outs), False
+    outname = next(iter(outs))
+    NAN = float('nan')
+
+    def spec(ref, tup):
+        if any(v != v for v in tup):
+            return NAN
+        if name in FREQ:
+            op = FREQ[name]
+            return sum(1 for v in tup if (ref > v if op == '>' else ref == v if op == '==' else ref < v))
+        if name == 'lowest_position':
+            return tup.index(min(tup)) + 1
+        if name == 'highest_position':
+            return tup.index(max(tup)) + 1
+        if name == 'rank':
+            return sorted(tup)[ref - 1]
+        raise KeyError(name)
+
+    def same(a, b):
+        if isinstance(a, bool) or not isinstance(a, (int, float)):
+            return False
+        return (a != a and b != b) or a == b
+    try:
+        for n_ in (1, 2, 3):
+            for tup in product((0.0, 1.0, 2.0, NAN), repeat=n_):
+                refs = [1] if name in FREQ else (list(range(1, n_ + 1)) if name == 'rank' else [None])
+                for ref in refs:
+                    got = None
+                    for cell in (tuple(tup), list(tup)):
+                        env_ = {comb: cell, outname: []}
+                        if ref is not None and refname:
+                            env_[refname] = ref
+                        try:
+                            try:
+                                Folder(prog, f.module).block(body, env_)
+                            except _Continue:
+                                pass
+                            got = env_[outname]
+                            break
+                        except CannotFold as ex:
+                            if isinstance(cell, tuple) and ('sort' in str(ex) or 'reverse' in str(ex) or 'store' in str(ex)):
+                                continue        # the cell is a list in this operator (sorted in place)
+                            raise
+                    want = spec(ref, tup)
+                    if got is None or len(got) != 1 or not same(got[0], want):
+                        return False, 'for the layer values %s%s the cell gets %s, the definition gives %s' % (
+                            list(tup), (' and reference %s' % ref) if ref is not None else '', got, want), any(v != v for v in tup)
+        return True, '', False
+    except CannotFold as ex:
+        return None, 'per-cell code not evaluable: %s' % ex, False
+
+
+
 def check_op(prog, rep, m, name):
     f = m.funcs.get(name)
     if f is None:
@@ -356,8 +423,18 @@ def check_op(prog, rep, m, name):
             if isinstance(c, ast.Call) and short(c) == 'append' and c.args and not is_nan_expr(c.args[0]) \
                     and id(c) not in in_guard_body:
                 appends.append((i, c))
+    MV = (None, 'not a modelled operator', False)
+    if name in FREQ or name in ('lowest_position', 'highest_position', 'rank'):
+        MV = cell_models(prog, f, body, comb, refname, name)
+    if MV[0] is False and MV[2]:
+        rep.add('L3', f, name, 'per-cell code on a cell holding NaN', loop.lineno, False,
+                'a NaN in any data layer must make the cell NaN: ' + MV[1])
     for i, c in appends:
         ok = guard_pos is not None and (i > guard_pos or id(c) in in_guard_else)
+        if MV[0] is True:
+            ok = True         # decided on the models: every cell holding NaN gets NaN
+        elif not ok:
+            ok = None if MV[0] is None else ok
         rep.add('L3', f, name, norm(c), c.lineno, ok,
                 'a NaN in any data layer must make the cell NaN: the `np.isnan(%s).any()` test (appending NaN and '
                 'continuing) must come before every per-cell result' % comb)
@@ -416,6 +493,22 @@ def check_op(prog, rep, m, name):
                     shown, line = norm(test), c.lineno
                     ok = op == FREQ[name] and isinstance(other, ast.Name) and other.id == item and len(appends) == 1
                     why = 'found `%s %s item`' % (refname, op)
+        if MV[0] is True:
+            ok, why = True, 'decided on the models: the count equals the definition for every ordering of up to three layers'
+        elif MV[0] is False and not MV[2]:
+            ok, why = False, MV[1]
+        elif not ok and MV[0] is None:
+            # a tolerance test is positively not the exact comparison (values within the tolerance are counted by two of the
+            # three operators, or by none); anything else that cannot be folded stays undecided
+            tol = [c_ for s_ in body for c_ in ast.walk(s_) if isinstance(c_, ast.Call) and short(c_) in ('isclose', 'allclose')
+                   and any(isinstance(x_, ast.Name) and x_.id == refname for a_ in c_.args for x_ in ast.walk(a_))]
+            tol += [c_ for s_ in body for c_ in ast.walk(s_) if isinstance(c_, ast.Compare) and
+                    any(isinstance(x_, ast.BinOp) and isinstance(x_.op, ast.Sub) and
+                        any(isinstance(y_, ast.Name) and y_.id == refname for y_ in ast.walk(x_)) for x_ in ast.walk(c_.left))]
+            if tol:
+                ok = False
+            else:
+                ok, why = None, why + '; ' + MV[1]
         rep.add('L2', f, name, shown, line, ok,
                 '%s must count the layers with `ref %s item` (the three operators partition the layers: > == <); %s'
                 % (name, FREQ[name], why))
@@ -428,40 +521,13 @@ def check_op(prog, rep, m, name):
             env = straightline_env(body)
             e = inline(c.args[0], env)
             got = norm(e)
-        # The per-cell code touches the layer values only through comparisons (min / max / index / < / >), so its result
-        # depends on their ordering alone: it is evaluated (consteval: a pure-Python subset, no library code) for every
-        # tuple over three distinct levels of length 1..3 - every weak ordering of up to three layers, ties included -
-        # and must give the 1-based position of the first extreme value each time.  However it is spelled.
-        if guard_pos is not None and len(appends) == 1 and isinstance(appends[0][1].func, ast.Attribute) and \
-                isinstance(appends[0][1].func.value, ast.Name):
-            from itertools import product
-            from ..consteval import CannotFold, Folder, _Continue
-            outname = appends[0][1].func.value.id
-            g = body[guard_pos]
-            stmts = list(g.orelse) + list(body[guard_pos + 1:])
-            pre = [s_ for s_ in body[:guard_pos] if isinstance(s_, ast.Assign)]
-            bad = None
-            try:
-                for n_ in (1, 2, 3):
-                    for tup in product((0, 1, 2), repeat=n_):
-                        fo = Folder(prog, f.module)
-                        env_ = {comb: tup, outname: []}
-                        try:
-                            fo.block(pre + stmts, env_)
-                        except _Continue:
-                            pass
-                        want = tup.index(min(tup) if fn == 'min' else max(tup)) + 1
-                        if env_[outname] != [want] or isinstance(env_[outname][0], bool):
-                            bad = (tup, env_[outname], want)
-                            break
-                    if bad:
-                        break
-                ok = bad is None
-                why = '; for the layer values %s the cell gets %s, expected %s' % bad if bad else ''
-            except CannotFold as ex:
-                ok, why = None, '; per-cell code not evaluable: %s' % ex
+        # decided on the models (cell_models): however the first extreme position is spelled
+        if MV[0] is True:
+            ok = True
+        elif MV[0] is False:
+            ok, why = (False, '; ' + MV[1]) if not MV[2] else (None, '; (NaN case reported under L3)')
         else:
-            ok, why = None, '; NaN guard / single append of the per-cell result not identified'
+            ok, why = None, '; ' + MV[1]
         rep.add('L4', f, name, 'appended value: %s' % got, loop.lineno, ok,
                 '%s must be the 1-based index of the first %simum: %s.index(%s(%s)) + 1%s' % (name, fn, comb, fn, comb, why))
     if name == 'rank':
@@ -476,8 +542,16 @@ def check_op(prog, rep, m, name):
             ok = got in ('%s[%s - 1]' % (comb, refname),)
             if got == 'sorted(%s)[%s - 1]' % (comb, refname):
                 ok = sorted_ok = True        # an ascending sorted copy indexed directly
-        rep.add('L4', f, name, 'ascending sort then %s' % got, loop.lineno, ok and sorted_ok,
-                'rank must sort the cell values ascending (no reverse) and take element ref - 1')
+        okr = ok and sorted_ok
+        whyr = ''
+        if MV[0] is True:
+            okr = True
+        elif MV[0] is False and not MV[2]:
+            okr, whyr = False, '; ' + MV[1]
+        elif not okr and MV[0] is None:
+            okr, whyr = None, '; ' + MV[1]
+        rep.add('L4', f, name, 'ascending sort then %s' % got, loop.lineno, okr,
+                'rank must sort the cell values ascending (no reverse) and take element ref - 1' + whyr)
         # private copy: iter_list holds lists created per cell (list(...) in the nditer loop), so sort() is private
     if name == 'combine':
         check_combine(rep, f, loop, comb)
